@@ -18,13 +18,15 @@ use vmon::srv::{Ctx, Running, SrvCfg, C};
 
 pub const RULE: &str = "one case = one request (uid) of a generated scenario \
 (task mode x tokio workers 1/2/4/16 x CPU hogs x 1..128 concurrent connections x \
-per-request handler kind gated/gated-post/stepping/big/panicking x disconnect phase \
+per-request handler kind gated/gated-post/stepping/big/panicking/(rare, tagged) \
+stream-unread-body x disconnect phase \
 P0 head half-sent/P0b body half-sent/P1 after last byte/P2 after observed H_ENTER/P3 \
 after H_DONE during the 8 MB response write/P4 never x style close/RST); class = \
 mode|kind|phase|style|order of that uid's events by seq (E enter, s steps, S sent, \
 d/D disconnect call/return, G gate opened, F done, X cancelled-drop, x drop after \
 completion, P panic-drop, R response read)|client outcome";
 
+const STREAM_BODY: usize = 200_000;
 const WD_OBSERVE: Duration = Duration::from_secs(20);
 const WD_CANCEL: Duration = Duration::from_secs(10);
 const WD_READ: Duration = Duration::from_secs(40);
@@ -36,6 +38,9 @@ enum Kind {
     Stepping,
     Big,
     Panicking,
+    /// tagged exotic class: POST with a 200 kB body to a handler that holds the
+    /// body unread while it waits (StreamingBody extractor)
+    Stream,
     /// panicking request with a second request pipelined behind it on the
     /// same connection (separately tagged class, counted, not judged)
     PanicPipe,
@@ -48,6 +53,7 @@ impl Kind {
             Kind::GatedPost => "gated-post",
             Kind::Stepping => "stepping",
             Kind::Big => "big",
+            Kind::Stream => "stream-unread-body",
             Kind::Panicking => "panicking",
             Kind::PanicPipe => "panic+pipelined",
         }
@@ -57,6 +63,7 @@ impl Kind {
             Kind::Gated | Kind::GatedPost => "/gated",
             Kind::Stepping => "/stepping",
             Kind::Big => "/big",
+            Kind::Stream => "/stream",
             Kind::Panicking | Kind::PanicPipe => "/panicking",
         }
     }
@@ -157,6 +164,9 @@ fn gen_scenario(rng: &mut Rng, quick: bool) -> Sc {
     let mut big_budget = if rng.chance(if quick { 35 } else { 20 }, 100) { 1 + rng.usize(3) } else { 0 };
     let mut panic_budget = if rng.chance(25, 100) { 1 + rng.usize(2) } else { 0 };
     let mut pipe_budget = if rng.chance(10, 100) { 1 } else { 0 };
+    // the tagged unread-streaming-body class is rare: on the pinned tree each
+    // such victim in cancel mode costs the full 10 s cancellation watchdog
+    let mut stream_budget = if rng.chance(if quick { 12 } else { 6 }, 1000) { 2 } else { 0 };
     let mut plans = vec![];
     for _ in 0..n {
         let mut p = Plan {
@@ -235,9 +245,16 @@ fn gen_scenario(rng: &mut Rng, quick: bool) -> Sc {
                 }
             }
         }
+        if stream_budget > 0 && !matches!(p.kind, Kind::Panicking | Kind::PanicPipe | Kind::Big) {
+            // first a victim at P2, then a client that stays
+            p.kind = Kind::Stream;
+            p.uid2 = None;
+            p.size = 1000;
+            p.phase = if stream_budget == 2 { Phase::P2 } else { Phase::P4 };
+            stream_budget -= 1;
+        }
         plans.push(p);
     }
-    // a lone panicking request proves little: make sure somebody else is there
     Sc { mode, workers, hogs, plans }
 }
 
@@ -275,6 +292,10 @@ fn encode(p: &Plan) -> Vec<u8> {
     if p.kind == Kind::GatedPost {
         r.method = "POST".into();
         r = r.body(&[b'x'; 64]);
+    }
+    if p.kind == Kind::Stream {
+        r.method = "POST".into();
+        r = r.body(&vec![b'y'; STREAM_BODY]);
     }
     r.encode()
 }
@@ -469,7 +490,7 @@ pub fn run_scenario(out: &mut Out, seed: u64, shard: u64, case: u64, quick: bool
     rep.count("scenarios", 1);
     let log = EvLog::new();
     let ctx = Ctx::new(log.clone());
-    let cfg = SrvCfg { mode: sc.mode, body_max: 1024, versioned: None, workers: sc.workers };
+    let cfg = SrvCfg { mode: sc.mode, body_max: 4 << 20, versioned: None, workers: sc.workers };
     let mut running = match vmon::srv::start(api(), ctx.clone(), &cfg) {
         Ok(r) => r,
         Err(_) => {
@@ -650,7 +671,11 @@ pub fn run_scenario(out: &mut Out, seed: u64, shard: u64, case: u64, quick: bool
             }
             if detached {
                 rep.violate(
-                    format!("C16:detached:handler-cancelled@{}", p.phase.tag()),
+                    format!(
+                        "C16:detached:handler-cancelled@{}{}",
+                        p.phase.tag(),
+                        if p.kind == Kind::Stream { ":unread-streaming-body" } else { "" }
+                    ),
                     wit("detached handler dropped before completion"),
                 );
             }
@@ -660,13 +685,21 @@ pub fn run_scenario(out: &mut Out, seed: u64, shard: u64, case: u64, quick: bool
             if !h.done.is_empty() {
                 verdict = "ran-on";
                 rep.violate(
-                    format!("C16:cancel:victim-ran-to-completion@{}", p.phase.tag()),
+                    format!(
+                        "C16:cancel:victim-ran-to-completion@{}{}",
+                        p.phase.tag(),
+                        if p.kind == Kind::Stream { ":unread-streaming-body" } else { "" }
+                    ),
                     wit("client sent its complete request, handler observed running, client \
                          disconnected; no cancellation within the 10 s watchdog; after the gate \
                          was opened the handler ran to completion"),
                 );
             } else if !h.drop0.is_empty() {
-                rep.inconclusive("c16-cancelled-later-than-watchdog");
+                rep.inconclusive(if p.kind == Kind::Stream {
+                    "c16-cancelled-later-than-watchdog:unread-streaming-body"
+                } else {
+                    "c16-cancelled-later-than-watchdog"
+                });
             } else {
                 rep.inconclusive("c16-victim-neither-cancelled-nor-done");
             }
